@@ -199,6 +199,70 @@ func TestVerifServerInlining(t *testing.T) {
 	}
 }
 
+// An upload whose inline bytes do not belong to the digest next to them (only the HTTP front end
+// accepts one: it does not copy inline bytes to the CAS and so never hashes them): when the read side
+// then hands the field out by digest, the bytes must not be lost.
+func TestVerifServerInliningForeignDigest(t *testing.T) {
+	rec := vNewRecorder(t, "srvinlineforeign")
+	defer rec.Close(t)
+	rng := vNewRand("srvinlineforeign")
+	ctx := context.Background()
+	rec.Set("rule", "HTTP PUT of an ActionResult whose stdout_raw / stderr_raw / output-file contents are X while the digest next to them is that of another blob Y held by the CAS; then GetActionResult without inlining: X must still be reachable (inline, or in the CAS under its own digest)")
+	f := vNewFix(t, vFixOpts{validateAC: true, depsCheck: true})
+	defer f.Close()
+	for _, field := range []string{"stdout", "stderr", "file"} {
+		rec.Case()
+		x, y := rng.Bytes(500), rng.Bytes(600)
+		dy := f.vPutBlob(t, y)
+		ar := &pb.ActionResult{ExitCode: 1}
+		switch field {
+		case "stdout":
+			ar.StdoutRaw, ar.StdoutDigest = x, dy
+		case "stderr":
+			ar.StderrRaw, ar.StderrDigest = x, dy
+		default:
+			ar.OutputFiles = []*pb.OutputFile{{Path: "o", Contents: x, Digest: dy}}
+		}
+		key := vSha(rng.Bytes(16))
+		body, _ := proto.Marshal(ar)
+		code, _, _ := f.vHTTPDo("PUT", "/ac/"+key, nil, body)
+		rec.Note(fmt.Sprintf("%s: upload -> %d", field, code))
+		rec.Distinct(field)
+		if code != 200 {
+			rec.Count("upload-refused")
+			continue // refusing the inconsistent message is fine
+		}
+		got, err := f.ac.GetActionResult(ctx, &pb.GetActionResultRequest{ActionDigest: &pb.Digest{Hash: key, SizeBytes: 1}})
+		if err != nil {
+			rec.Count("read-" + status.Code(err).String())
+			continue
+		}
+		var raw []byte
+		var dg *pb.Digest
+		switch field {
+		case "stdout":
+			raw, dg = got.StdoutRaw, got.StdoutDigest
+		case "stderr":
+			raw, dg = got.StderrRaw, got.StderrDigest
+		default:
+			raw, dg = got.OutputFiles[0].Contents, got.OutputFiles[0].Digest
+		}
+		// the same read for model M8b: inline bytes with token x next to the digest of y, y in the CAS
+		dgs := "-"
+		if dg != nil {
+			dgs = fmt.Sprintf("%s:%d", dg.Hash[:10], dg.SizeBytes)
+		}
+		rec.Op(fmt.Sprintf("acinl.run max=%d fields=0|1|%s:%d|%s:%d cas=%s:%d", 3<<20, vSha(x)[:10], len(x), dy.Hash[:10], dy.SizeBytes, dy.Hash[:10], dy.SizeBytes),
+			fmt.Sprintf("raw=%d|dig=%s sofar=%d", len(raw), dgs, len(raw)))
+		xMissing, _ := f.vMissing(vSha(x), int64(len(x)))
+		kept := bytes.Equal(raw, x) || (!xMissing && dg != nil && dg.Hash == vSha(x))
+		rec.Count(fmt.Sprintf("%s.kept=%v", field, kept))
+		if !kept {
+			rec.Violation("C11", "inline.deinlined-under-foreign-digest", fmt.Sprintf("%s: uploaded %d inline bytes next to the digest of another blob; the hit hands the field out as digest %s/%d with no inline bytes, and the uploaded bytes are neither inline nor in the CAS", field, len(x), dg.GetHash()[:10], dg.GetSizeBytes()), map[string]string{"field": field})
+		}
+	}
+}
+
 // vPutLarge stores a blob of any size (ByteStream for what does not fit a batch message).
 func (f *vFix) vPutLarge(t testing.TB, data []byte) {
 	if len(data) < 3<<20 {
